@@ -34,6 +34,12 @@ func runC15(c *core.Ctx, b core.Batch) {
 		nb = 4
 	}
 	types := shard(codecTypes(b), b.N, nb)
+	if b.Cfg == "base" && b.N == 1 {
+		// dynamicpb over PRNG-generated schemas: message shapes no linked type has
+		dt := schemaDynTypes(c, 0x15, c.Scale(6, 60))
+		c.CountN("generated_schema_dynamic_types", int64(len(dt)))
+		types = append(types, dt...)
+	}
 	per := c.Scale(10, 120)
 	for ti, mt := range types {
 		name := string(mt.Descriptor().FullName())
